@@ -238,6 +238,9 @@ fn first_diff(a: &[i64; 9], b: &[i64; 9]) -> Option<usize> {
 #[derive(Clone, Debug)]
 enum Op {
     Insert { peer: usize, fam: usize, path_id: u32, spec: Spec, filtered: bool, nh: Option<u8> },
+    /// the peer's current session announces again exactly what this (peer, path id) announced
+    /// last: same attributes (the same Arc or an equal-content copy), same next hop, same policy result
+    Reannounce { peer: usize, fam: usize, path_id: u32, same_arc: bool },
     Remove { peer: usize, fam: usize, path_id: u32 },
     Drop { peer: usize, fam: usize },
     Restale { peer: usize, fam: usize },
@@ -255,6 +258,7 @@ impl Op {
     fn kind(&self) -> &'static str {
         match self {
             Op::Insert { .. } => "insert",
+            Op::Reannounce { .. } => "reannounce",
             Op::Remove { .. } => "remove",
             Op::Drop { .. } => "drop",
             Op::Restale { .. } => "restale",
@@ -283,6 +287,8 @@ struct World {
     unreachable: BTreeSet<u8>,
     log: Vec<String>,
     next_tag: u32,
+    /// what each (peer, family, path id) announced last: (tag, spec, filtered, nh, attribute Arc)
+    last: std::collections::BTreeMap<(usize, usize, u32), (u32, Spec, bool, Option<u8>, Arc<Vec<Attribute>>)>,
     resorted: [bool; 2],
     /// the internal EVPN list was seen out of MAC-mobility order (sticky)
     mm_broken: bool,
@@ -304,6 +310,7 @@ impl World {
             unreachable: BTreeSet::new(),
             log: Vec::new(),
             next_tag: 1,
+            last: Default::default(),
             resorted: [false, false],
             mm_broken: false,
             dead: false,
@@ -383,6 +390,37 @@ fn apply(ctx: &mut Ctx, w: &mut World, op: &Op) -> Vec<(usize, NlriChange, &'sta
             let mp = MPath { tag, fam, peer, addr, path_id, spec, filtered, nh, nh_invalid, sess: sess.clone() };
             w.log.push(format!("insert[{}] {}", FAM_NAME[fam], mp.desc()));
             let attrs = spec.attrs(tag);
+            w.last.insert((peer, fam, path_id), (tag, spec, filtered, nh, attrs.clone()));
+            let nexthop = nh.map(|n| Nexthop::V4(nh_addr(n)));
+            let t = &mut w.t;
+            let r = guard(|| t.insert(sess.src.clone(), family(fam), net(fam), path_id, nexthop, attrs, None, filtered, nh_invalid, None, 0));
+            w.paths.retain(|p| !(p.fam == fam && p.addr == addr && p.path_id == path_id));
+            w.paths.push(mp);
+            r.map(|res| {
+                if let InsertResult::Changed(c) = res {
+                    out.push((fam, c, "insert"));
+                }
+            })
+        }
+        Op::Reannounce { peer, fam, path_id, same_arc } => {
+            let Some((tag, spec, filtered, nh, old_attrs)) = w.last.get(&(peer, fam, path_id)).cloned() else {
+                return out;
+            };
+            let sess = w.session(peer, fam);
+            let nh_invalid = nh.is_some_and(|n| w.unreachable.contains(&n));
+            let addr = w.addr(peer);
+            let was_present = w.paths.iter().find(|p| p.fam == fam && p.addr == addr && p.path_id == path_id).map(|p| (p.sess.gr.get(), p.sess.llgr.get()));
+            match was_present {
+                Some((true, _)) | Some((_, true)) => ctx.rep.count("reannounce:over-stale-entry"),
+                Some(_) => ctx.rep.count("reannounce:over-fresh-entry"),
+                None => ctx.rep.count("reannounce:after-purge"),
+            }
+            ctx.rep.count(if same_arc { "reannounce:same-arc" } else { "reannounce:equal-content-new-arc" });
+            // the tag stays the same: the entry it replaces (same address + path id) is the only other holder
+            let mp = MPath { tag, fam, peer, addr, path_id, spec, filtered, nh, nh_invalid, sess: sess.clone() };
+            w.log.push(format!("reannounce[{}] ({}) {}", FAM_NAME[fam], if same_arc { "same attribute Arc" } else { "equal attributes, new Arc" }, mp.desc()));
+            let attrs = if same_arc { old_attrs } else { spec.attrs(tag) };
+            w.last.insert((peer, fam, path_id), (tag, spec, filtered, nh, attrs.clone()));
             let nexthop = nh.map(|n| Nexthop::V4(nh_addr(n)));
             let t = &mut w.t;
             let r = guard(|| t.insert(sess.src.clone(), family(fam), net(fam), path_id, nexthop, attrs, None, filtered, nh_invalid, None, 0));
@@ -994,7 +1032,7 @@ fn step(ctx: &mut Ctx, w: &mut World, op: Op, check: bool) -> Option<()> {
                 check_state(ctx, w, EVPN, &changes)?;
             }
             Op::NewSession { .. } => {}
-            Op::Insert { fam, .. } | Op::Remove { fam, .. } | Op::Drop { fam, .. } | Op::Restale { fam, .. }
+            Op::Insert { fam, .. } | Op::Reannounce { fam, .. } | Op::Remove { fam, .. } | Op::Drop { fam, .. } | Op::Restale { fam, .. }
             | Op::RestaleLlgr { fam, .. } | Op::DropNoLlgr { fam, .. } | Op::DropStale { fam, .. } | Op::DropLlgrStale { fam, .. } => {
                 check_state(ctx, w, fam, &changes)?;
             }
@@ -1400,6 +1438,33 @@ fn random_spec(rng: &mut Rng, long_ok: bool) -> Spec {
     s
 }
 
+/// What a re-established session typically does first: announce again exactly what the
+/// previous session had (same path ids, same attributes), before or after the End-of-RIB
+/// purge of the still-stale entries.
+fn reannounce_ops(rng: &mut Rng, w: &World, peer: usize, fam: usize, pending: &mut Option<Phase>, ops: &mut Vec<Op>) {
+    if rng.chance(1, 3) {
+        return;
+    }
+    let purge_first = rng.chance(1, 4);
+    let purge = |pending: &mut Option<Phase>, ops: &mut Vec<Op>| {
+        if let Some(ph) = pending.take() {
+            ops.push(if ph == Phase::GrStale { Op::DropStale { peer, fam } } else { Op::DropLlgrStale { peer, fam } });
+        }
+    };
+    if purge_first {
+        purge(pending, ops);
+    }
+    let pids: Vec<u32> = w.last.keys().filter(|k| k.0 == peer && k.1 == fam).map(|k| k.2).collect();
+    for path_id in pids {
+        if rng.chance(4, 5) {
+            ops.push(Op::Reannounce { peer, fam, path_id, same_arc: rng.bool() });
+        }
+    }
+    if !purge_first && rng.chance(1, 3) {
+        purge(pending, ops);
+    }
+}
+
 fn run_histories(ctx: &mut Ctx, rng: &mut Rng, count: u64) {
     const NP: usize = 6; // 5 remote peers + the local source
     for _ in 0..count {
@@ -1488,6 +1553,7 @@ fn run_histories(ctx: &mut Ctx, rng: &mut Rng, count: u64) {
                         ops.push(Op::NewSession { peer, fam });
                         pending[peer][fam] = Some(Phase::GrStale);
                         phase[peer][fam] = Phase::Up;
+                        reannounce_ops(rng, &w, peer, fam, &mut pending[peer][fam], &mut ops);
                     } else if r < 6 {
                         ctx.rep.count("proto:gr-expire-drop");
                         ops.push(Op::Drop { peer, fam });
@@ -1509,6 +1575,7 @@ fn run_histories(ctx: &mut Ctx, rng: &mut Rng, count: u64) {
                         ops.push(Op::NewSession { peer, fam });
                         pending[peer][fam] = Some(Phase::LlgrStale);
                         phase[peer][fam] = Phase::Up;
+                        reannounce_ops(rng, &w, peer, fam, &mut pending[peer][fam], &mut ops);
                     } else {
                         ctx.rep.count("proto:llgr-expire");
                         ops.push(Op::DropLlgrStale { peer, fam });
@@ -1616,7 +1683,7 @@ fn run_tie_histories(ctx: &mut Ctx, rng: &mut Rng, count: u64) {
                 (0..NP).filter(|&i| want.contains(&ph[i]) && w.paths.iter().any(|p| p.fam == fam && p.peer == i)).collect()
             };
             match rng.below(100) {
-                0..=34 => {
+                0..=29 => {
                     let c = with_path(&w, &phase, &[Phase::Up]);
                     if !c.is_empty() {
                         let peer = *rng.pick(&c);
@@ -1625,7 +1692,7 @@ fn run_tie_histories(ctx: &mut Ctx, rng: &mut Rng, count: u64) {
                         go!(Op::Restale { peer, fam });
                     }
                 }
-                35..=49 => {
+                30..=44 => {
                     let c = with_path(&w, &phase, &[Phase::Up, Phase::GrStale]);
                     if !c.is_empty() {
                         let peer = *rng.pick(&c);
@@ -1635,13 +1702,13 @@ fn run_tie_histories(ctx: &mut Ctx, rng: &mut Rng, count: u64) {
                         go!(Op::DropNoLlgr { peer, fam });
                     }
                 }
-                50..=64 => {
+                45..=56 => {
                     let nh = rng.below(3) as u8;
                     let reachable = w.unreachable.contains(&nh);
                     ctx.rep.count("tie:disturb:nexthop-flip");
                     go!(Op::NhFlip { nh, reachable });
                 }
-                65..=84 => {
+                57..=71 => {
                     // replacement that only toggles `filtered`
                     let c: Vec<MPath> = w.paths.iter().filter(|p| p.fam == fam && phase[p.peer] == Phase::Up).cloned().collect();
                     if !c.is_empty() {
@@ -1655,17 +1722,27 @@ fn run_tie_histories(ctx: &mut Ctx, rng: &mut Rng, count: u64) {
                     let c: Vec<usize> = (0..NP).filter(|&i| matches!(phase[i], Phase::GrStale | Phase::LlgrStale)).collect();
                     if !c.is_empty() {
                         let peer = *rng.pick(&c);
-                        if rng.bool() {
+                        if rng.chance(7, 10) {
                             ctx.rep.count("tie:disturb:reconnect");
                             pending[peer] = Some(phase[peer]);
                             phase[peer] = Phase::Up;
                             go!(Op::NewSession { peer, fam });
-                            if rng.bool() {
+                            if rng.chance(1, 4) {
+                                // something new instead of the old announcement
                                 go!(Op::Insert { peer, fam, path_id: 0, spec: tie_spec(rng), filtered: rng.chance(1, 5), nh: Some(rng.below(3) as u8) });
-                            }
-                            if rng.bool() {
-                                let ph = pending[peer].take().unwrap();
-                                go!(if ph == Phase::GrStale { Op::DropStale { peer, fam } } else { Op::DropLlgrStale { peer, fam } });
+                                if rng.bool() {
+                                    let ph = pending[peer].take().unwrap();
+                                    go!(if ph == Phase::GrStale { Op::DropStale { peer, fam } } else { Op::DropLlgrStale { peer, fam } });
+                                }
+                            } else {
+                                // exactly the old announcement again, before or after the End-of-RIB purge
+                                let mut ops = Vec::new();
+                                let mut pend = pending[peer];
+                                reannounce_ops(rng, &w, peer, fam, &mut pend, &mut ops);
+                                pending[peer] = pend;
+                                for op in ops {
+                                    go!(op);
+                                }
                             }
                         } else {
                             ctx.rep.count("tie:disturb:stale-expiry");
